@@ -68,13 +68,22 @@ class AnglesFromRelion(Contract):
     prop = "C03"
     module = "cryomotl"
     qual = "RelionMotl.convert_angles_from_relion"
+    # STAR columns are identified by label: the three angle columns alone in RELION's usual order, and among other columns in another order
+    configs = [{"columns": "angles only"}, {"columns": "psi first, among other columns"}]
+
+    def cfg_name(self, cfg):
+        return "" if cfg["columns"] == "angles only" else cfg["columns"]
 
     def bind(self, cx, cfg):
         it = common.motl_interp()
         df = common.fresh_motl_frame()
         me = _relion_self(it, 3.1, df)
         ang = {n: theory.angle_input(n) for n in ("rlnAngleRot", "rlnAngleTilt", "rlnAnglePsi")}
-        rdf = frames.GFrame(list(ang), ang, df.space)
+        if cfg["columns"] == "angles only":
+            rdf = frames.GFrame(list(ang), ang, df.space)
+        else:
+            cols = ["rlnCoordinateX", "rlnAnglePsi", "rlnAngleRot", "rlnOriginX", "rlnAngleTilt"]
+            rdf = frames.GFrame(cols, {c: ang[c] if c in ang else SV(z3.Real("in_" + c)) for c in cols}, df.space)
         return (lambda: it.function("RelionMotl.convert_angles_from_relion").bind(me)(rdf)), {"me": me, "ang": ang, "old": common.old_row()}
 
     def post(self, cx, cfg, inp, res):
@@ -88,7 +97,7 @@ class AnglesFromRelion(Contract):
 
     def replay(self, clause, model, cfg):
         from rtc import c03 as r
-        return r.replay_angles_from(model)
+        return r.replay_angles_from(model, None if cfg["columns"] == "angles only" else ["rlnCoordinateX", "rlnAnglePsi", "rlnAngleRot", "rlnOriginX", "rlnAngleTilt"])
 
 
 class ConvertShifts(Contract):
